@@ -293,6 +293,28 @@ class Interp(object):
                             raise Unmodelled("slice %s" % T.show(t)[:80])
                         yield _strip_suffix(s, x.text()), tr2
                 return
+            # s[:-len(x) - k]: the suffix x and k more characters (a separator) are cut off
+            if lo is None and st is None and hi is not None and hi[0] == "binop" and hi[1] == "-" and hi[3][0] == "const" \
+                    and isinstance(hi[3][1], int) and 0 < hi[3][1] <= 2 and hi[2][0] == "unary" and hi[2][1] == "-" \
+                    and hi[2][2][0] == "call" and hi[2][2][1] == ("global", "len") and len(hi[2][2][2]) == 1:
+                for s, tr in self._ev(t[1], trail):
+                    for x, tr2 in self._ev(hi[2][2][2][0], tr):
+                        if not (isinstance(s, AStr) and isinstance(x, AStr) and x.is_concrete()):
+                            raise Unmodelled("slice %s" % T.show(t)[:80])
+                        r = _strip_suffix(s, x.text())
+                        for _ in range(hi[3][1]):
+                            if not r:
+                                break
+                            a = r[-1]
+                            if a[0] == "lit" or (a[0] == "txt" and len(a[1]) == 1):
+                                r = AStr(r[:-1])
+                            elif a[0] == "txt":
+                                r = AStr(r[:-1] + ((a[0], a[1][:-1]),))
+                            else:
+                                # one character cut off an arbitrary segment: some other (possibly empty) segment
+                                r = AStr(r[:-1] + (("sym", a[1] + "~"),))
+                        yield r, tr2
+                return
             raise Unmodelled("slice %s" % T.show(t)[:80])
         if k == "sub" and t[2][0] == "const" and isinstance(t[2][1], int):
             for v, tr in self._ev(t[1], trail):
